@@ -68,7 +68,10 @@ class DiagonalGaussian(_ProbabilisticModel):
         c = np.reshape(self.covariance, (-1, D))
         pc = _compute_precision_cholesky(c, 'diag')
         self.precision_cholesky = np.reshape(pc, self.covariance.shape)
-        self.log_det_precision_cholesky = _compute_log_det_cholesky(pc, 'diag', D)
+        self.log_det_precision_cholesky = np.reshape(
+            _compute_log_det_cholesky(pc, 'diag', D),
+            self.covariance.shape[:-1]
+        )
 
     def log_pdf(self, y):
         """Gets used by e.g. the GMM.
@@ -81,11 +84,7 @@ class DiagonalGaussian(_ProbabilisticModel):
         """
         D = self.mean.shape[-1]
         difference = y - self.mean[..., None, :]
-        white_x = np.einsum(
-            '...dD,...nD->...nd',
-            self.precision_cholesky,
-            difference
-        )
+        white_x = self.precision_cholesky[..., None, :] * difference
         return (
                 - 1 / 2 * D * np.log(2 * np.pi)
                 + self.log_det_precision_cholesky[..., None]
